@@ -31,6 +31,39 @@ pub enum Class {
 pub enum Case {
     Expr { prelude: Vec<Stmt>, class: Class, expr: Expr, spelling: Vec<u32> },
     Poetic { prelude: Vec<Stmt>, elems: Vec<PoeticElem>, spelling: Vec<u32> },
+    /// an expression as text (numbers, operators, separators in any arrangement the parser accepts): shapes the tree
+    /// generator leaves out because the grammar's reading of them is not documented (lists opening inside lists)
+    Text { expr: String },
+}
+
+fn text_expr(t: &mut Tape) -> String {
+    let nums = ["1", "2", "3", "4", "5", "6", "7", "10", "0.5", "0", "100", "2.5"];
+    let ops = [" + ", " - ", " * ", " / ", " plus ", " minus ", " times ", " over ", " with ", " of ", " without ", " between "];
+    let seps = [", ", ", ", ", and ", " & ", ", ", " 'n' "];
+    let n = 2 + t.pick(9);
+    let mut s = String::new();
+    for i in 0..n {
+        if i > 0 {
+            // an operator or a list separator between operands; separators need an operator somewhere before them
+            if i >= 2 && t.chance(2, 5) {
+                s.push_str(*t.choose(&seps));
+            } else {
+                s.push_str(*t.choose(&ops));
+            }
+        }
+        match t.pick(12) {
+            0 => s.push('-'),
+            1 => s.push_str("not "),
+            2 => s.push_str("- -"),
+            _ => {}
+        }
+        if t.chance(1, 15) {
+            s.push_str("the unknown");
+        } else {
+            s.push_str(*t.choose(&nums));
+        }
+    }
+    s
 }
 
 fn prelude(t: &mut Tape, vars: &[Name]) -> Vec<Stmt> {
@@ -65,8 +98,8 @@ impl Prop for C17 {
     }
     fn rule(&self) -> String {
         "expressions in labelled classes, each printed by `say` after a random prelude (variables of random kinds, an array, a function): constant (number literals incl. 0, fractions, huge, infinite; unary minus; + - * / \
-         with list operands, nesting <= 4; inf/NaN/-0 results), unknown (same shapes with >= 1 variable, pronoun, element, call or roll), other (fully random grammar expressions: other literal kinds, not, comparisons, logic), \
-         plain string literals; and poetic number literals as right-hand sides. Folder says value => executing prints exactly value.to_string(); constant => must fold to the independently computed IEEE value; unknown => must not fold. \
+         with list operands, nesting <= 4; inf/NaN/-0 results), unknown (same shapes with >= 1 variable, pronoun, element, call or roll), other (fully random grammar expressions: other literal kinds, not, comparisons, logic; and constant expressions with a few leaves perturbed: `not` stacked 1-3 deep, other literal kinds), \
+         plain string literals; poetic number literals as right-hand sides; and expressions as raw text (numbers, every operator spelling, every list separator, unary minus / not in any arrangement the parser accepts, incl. lists that open inside lists). Folder says value => executing prints exactly value.to_string(); constant => must fold to the independently computed IEEE value; unknown => must not fold. \
          non-trivial = >= 1 operator (or a poetic literal with >= 2 words); distinct by case"
             .into()
     }
@@ -86,7 +119,9 @@ impl Prop for C17 {
         let spelling = super::c02::take_spelling(t, 30);
         let vars = names::distinct(t, 6);
         let pre = prelude(t, &vars);
-        match t.weighted(&[35, 25, 22, 8, 10]) {
+        match t.weighted(&[30, 22, 16, 8, 8, 8, 8]) {
+            6 => Case::Text { expr: text_expr(t) },
+            5 => Case::Expr { prelude: pre, class: Class::Other, expr: engine_core::gen::consts::near_constant_expr(t, 3), spelling },
             0 => Case::Expr { prelude: pre, class: Class::Constant, expr: constant_expr(t, 4), spelling },
             1 => {
                 let vs = vars.clone();
@@ -210,6 +245,55 @@ impl Prop for C17 {
                 o.digest = fnv_str(&format!("{:?}{:?}", nf.map(|v| v.value.to_bits()), sf.map(|s| s.value)));
                 o
             }
+            Case::Text { expr } => {
+                let src = format!("say {}\n", expr);
+                let tree = match parse_rrss(&src, Some(crate::run::parse_fuel_for(&src))) {
+                    Caught::Done(Ok(t)) => t,
+                    Caught::Done(Err(_)) => return Outcome::discard("text_expression_rejected"),
+                    Caught::Panic(p) => return Outcome::fail(format!("parse panicked: {}\n{}", p, src)),
+                    Caught::Budget(_) => return Outcome::fail(format!("parse fuel\n{}", src)),
+                };
+                let e = match last_output(&tree) {
+                    Some(e) => e,
+                    None => return Outcome::discard("text_expression_not_one_say"),
+                };
+                let nf = match guarded(|| NumericConstantFolder.visit_expression(e)) {
+                    Caught::Done(f) => f,
+                    Caught::Panic(p) => return Outcome::fail(format!("constant folder panicked: {}\n{}", p, src)),
+                    Caught::Budget(b) => return Outcome::fail(format!("budget {}", b)),
+                };
+                let mut o = Outcome::pass().label("class:Text");
+                o.nontrivial = true;
+                o.digest = fnv_str(&format!("{:?}", nf.as_ref().map(|v| v.value.to_bits()).ok()));
+                let reads = expr.contains("unknown");
+                let has_not = expr.contains("not");
+                match &nf {
+                    Ok(v) if reads => return Outcome::fail(format!("an expression that reads a variable folded to {}\n{}", v.value, src)),
+                    Err(err) if !reads && !has_not => {
+                        return Outcome::fail(format!("an expression built solely from number literals, unary minus and + - * / did not fold ({:?})\n{}", err, src))
+                    }
+                    _ => {}
+                }
+                if let Ok(v) = &nf {
+                    o.labels.push("folded".into());
+                    let (c2, out) = exec_rrss(&tree, b"", RLimits { exec_fuel: Some(300), alloc_cap: Some(1_000_000) });
+                    match c2 {
+                        Caught::Done(()) => {}
+                        Caught::Panic(p) => return Outcome::fail(format!("the folder reports {} but executing the expression panics: {}\n{}", v, p, src)),
+                        Caught::Budget(_) => return Outcome::discard("resource_bound"),
+                    }
+                    o.evals = 2;
+                    if out.err.is_some() || out.stdout_str() != format!("{}\n", v) {
+                        return Outcome::fail(format!("the folder reports {:?} but executing the expression prints {:?} (result {:?})\n{}", v.to_string(), out.stdout_str(), out.err, src));
+                    }
+                    if expr.matches(',').count() + expr.matches('&').count() >= 2 {
+                        o.labels.push("text:several_separators".into());
+                    }
+                } else {
+                    o.labels.push("not_folded".into());
+                }
+                o
+            }
             Case::Poetic { prelude, elems, spelling } => {
                 let x = simple("poeticvar");
                 let mut stmts = prelude.clone();
@@ -265,10 +349,11 @@ impl Prop for C17 {
         match c {
             Case::Expr { class, expr, .. } => json!({ "class": format!("{:?}", class), "expr": engine_core::render::render_expr_canonical(expr) }),
             Case::Poetic { elems, .. } => json!({ "poetic_elems": format!("{:?}", elems.iter().take(8).collect::<Vec<_>>()) }),
+            Case::Text { expr } => json!({ "class": "Text", "expr": expr }),
         }
     }
     fn expected_labels(&self) -> Vec<String> {
-        ["class:Constant", "class:Unknown", "class:Other", "class:StringLiteral", "class:Poetic", "folded", "not_folded", "list_operand", "value:NaN", "value:inf", "value:-inf", "value:-0"]
+        ["class:Constant", "class:Unknown", "class:Other", "class:StringLiteral", "class:Poetic", "class:Text", "text:several_separators", "folded", "not_folded", "list_operand", "value:NaN", "value:inf", "value:-inf", "value:-0"]
             .iter()
             .map(|s| s.to_string())
             .collect()
